@@ -9,7 +9,7 @@ for l in open(os.path.join(ROOT, 'seeded', 'RESULTS.txt')):
     if m:
         res.setdefault(m.group(1), []).append((m.group(2), m.group(3)))
 rows = []
-for sid in sorted(os.listdir(os.path.join(ROOT, 'seeded'))):
+for sid in sorted(os.listdir(os.path.join(ROOT, 'seeded')), key=lambda x: (x.split('-')[0], int(x.split('-')[1]) if '-' in x and x.split('-')[1].isdigit() else 0)):
     mp = os.path.join(ROOT, 'seeded', sid, 'meta.json')
     if not os.path.exists(mp):
         continue
